@@ -91,6 +91,7 @@ type GenesisSpec struct {
 	Funds      sdk.Coins // per account
 	MaxGas     int64     // consensus max gas; 0 => -1
 	RawState   map[string]json.RawMessage // when set, used instead of building (export/import)
+	InitialHeight int64                   // 0 => 1
 }
 
 type Chain struct {
@@ -165,6 +166,10 @@ func NewChain(spec GenesisSpec) (c *Chain, pi *PanicInfo) {
 	if maxGas == 0 {
 		maxGas = -1
 	}
+	initialHeight := spec.InitialHeight
+	if initialHeight == 0 {
+		initialHeight = 1
+	}
 	cp := *app.DefaultConsensusParams
 	blk := *cp.Block
 	blk.MaxGas = maxGas
@@ -181,9 +186,10 @@ func NewChain(spec GenesisSpec) (c *Chain, pi *PanicInfo) {
 			ConsensusParams: &cp,
 			AppStateBytes:   stateBytes,
 			Time:            c.Time,
-			InitialHeight:   1,
+			InitialHeight:   initialHeight,
 		})
 	}()
+	c.Height = initialHeight - 1
 	return c, pi
 }
 
